@@ -84,23 +84,28 @@ fn c04_cvec_same_verdict() {
     let in_range = lo >= 1 && hi >= 1 && lo <= hi && fmin >= 0.0 && fmin <= 1.0 && fmax >= 0.0 && fmax <= 1.0 && fmin <= fmax;
     let k_ref = match p.check_ref() { Ok(_) => 9, Err(e) => range_err_kind(&e) };
     let reached_ref = unsafe { REGEX_REACHED };
+    // "passed all range guards" = the regex compilation was reached (under Kani the ghost then yields RegexError, kind 5);
+    // in a native replay stubs are not applied, the real Regex::new runs and passing shows as Ok (kind 9).
+    let passed_ref = reached_ref == 1 || k_ref == 9;
+    if passed_ref { assert!(k_ref == 5 || k_ref == 9); }
     // every documented-valid set passes all range guards
-    if in_range { assert!(reached_ref == 1 && k_ref == 5); }
+    if in_range { assert!(passed_ref); }
     // a set that passes them satisfies every documented constraint except the upper bound 1 of the frequencies
-    if reached_ref == 1 { assert!(k_ref == 5 && lo >= 1 && hi >= 1 && lo <= hi && fmin >= 0.0 && fmax >= 0.0 && fmin <= fmax); }
+    if passed_ref { assert!(lo >= 1 && hi >= 1 && lo <= hi && fmin >= 0.0 && fmax >= 0.0 && fmin <= fmax); }
     // otherwise the error is a range error naming a constraint that is really broken, and nothing was compiled
-    if reached_ref == 0 {
-        assert!(k_ref >= 1 && k_ref <= 4);
+    if !passed_ref {
+        assert!(k_ref >= 1 && k_ref <= 4 && reached_ref == 0);
         if k_ref == 1 { assert!(lo == 0 || hi == 0); }
         if k_ref == 2 { assert!(lo > hi); }
         if k_ref == 3 { assert!(fmin < 0.0 || fmax < 0.0); }
         if k_ref == 4 { assert!(fmax < fmin); }
     }
     assert!(reached_ref <= 1);
-    // check_ref leaves self unchanged (the builder has no PartialEq: field by field; the regex cache stays empty)
+    // check_ref leaves self unchanged (the builder has no PartialEq: field by field; the regex cache - interior
+    // mutability - is only filled by a successful compilation, which the ghost never delivers)
     assert!(p.0.n_gram_range == (lo, hi) && p.0.document_frequency == (fmin, fmax) && p.0.convert_to_lowercase == lower
             && p.0.normalize == norm && p.0.max_features == mf && p.0.stopwords.is_none() && p.0.tokenizer_function.is_none()
-            && !p.0.tokenizer_deserialization_guard && p.0.split_regex.borrow().is_none());
+            && !p.0.tokenizer_deserialization_guard && (k_ref == 9 || p.0.split_regex.borrow().is_none()));
     // by value: same verdict, same error kind, regex compilation reached in exactly the same cases
     // (the Ok payload - unreachable under the ghost - is forgotten instead of dropped: the drop glue of a compiled
     //  `Regex` alone costs CBMC more than 10 min, and releasing memory is not part of the property)
@@ -113,5 +118,5 @@ fn c04_cvec_same_verdict() {
     kani::cover!(k_ref == 2);
     kani::cover!(k_ref == 3);
     kani::cover!(k_ref == 4);
-    kani::cover!(reached_ref == 1 && !in_range);
+    kani::cover!(passed_ref && !in_range);
 }
